@@ -163,7 +163,7 @@ func ZZ_C08_proposalValidation() {
 		curEpoch = zz.U32("pre.epoch")
 		zz.Assume(curEpoch >= 1 && curEpoch < 1000)
 		g, ep := w.group(3, 2, 1700000000, []byte("seed"))
-		d = &DBState{BeaconID: zzBeacon, Epoch: curEpoch, State: []Status{Complete, Aborted, TimedOut, Failed, Left}[zz.Choose("pre.status", 5)], Threshold: 2,
+		d = &DBState{BeaconID: zzBeacon, Epoch: curEpoch, State: []Status{Complete, Aborted, TimedOut, Failed, Left}[zz.Choose("pre.status", zz.Param("status_options", 5))], Threshold: 2,
 			Timeout: now.Add(-time.Hour), SchemeID: w.sch.Name, GenesisTime: time.Unix(1700000000, 0), GenesisSeed: []byte("seed"),
 			BeaconPeriod: 30 * time.Second, CatchupPeriod: 15 * time.Second, Leader: w.parts[0], Remaining: w.parts[:3], FinalGroup: g, KeyShare: ep.Share(w.sch, 0)}
 	}
@@ -177,7 +177,7 @@ func ZZ_C08_proposalValidation() {
 	} else {
 		terms.Timeout = zzTS(now.Add(time.Hour))
 	}
-	terms.GenesisTime = zzTS(time.Unix(1700000000+int64(zz.Choose("terms.genesis_delta", 2)), 0))
+	terms.GenesisTime = zzTS(time.Unix(1700000000+int64(zz.Choose("terms.genesis_delta", zz.Param("genesis_options", 2))), 0))
 	switch zz.Choose("terms.seed", zz.Param("seed_options", 3)) {
 	case 1:
 		terms.GenesisSeed = []byte("seed")
